@@ -48,6 +48,22 @@ def range_compound(rng, numeric=None, ops=("or", "or", "and", "dismax")):
     return {"op": rng.choice(list(ops)), "kids": kids, "b4": 4}
 
 
+def wide_ranges(rng):
+    """Or / DisjunctionMax of 3-4 term ranges with end points from a pool of seven words: which ranges overlap
+    depends on what has been merged before (a clause passed over may overlap the merged range)"""
+    pool = [[1], [1, 1], [1, 2], [2], [2, 1], [2, 2], [3]]
+    kids = []
+    spans = [sorted(rng.sample(range(len(pool)), 2)) for _ in range(rng.choice([3, 3, 4]))]
+    if rng.random() < 0.6:
+        # the first range does not reach the second, the third bridges them (in this order)
+        a1, c1, a2, b1, c2, b2 = sorted(rng.sample(range(len(pool)), 6))
+        spans = [[a1, a2], [b1, b2], [c1, c2]] + spans[3:]
+    for i, j in spans:
+        kids.append({"op": "termrange", "f": "body", "lo": pool[i], "hi": pool[j], "haslo": True, "hashi": True,
+                     "loexcl": rng.random() < 0.2, "hiexcl": rng.random() < 0.2, "b4": 4})
+    return {"op": rng.choice(["or", "or", "dismax"]), "kids": kids, "b4": 4}
+
+
 def swapped_twins(rng):
     """two positional queries of one class that differ only in the order of their operands, side by side in one
     compound (they are different queries: duplicate elimination must keep both)"""
@@ -145,8 +161,9 @@ def check(run):
                                          {"op": "andmaybe", "a": x, "b": ev}, {"op": "require", "a": x, "b": ev}])
                     if qi % 6 in (2, 3) and rng.random() < 0.8:
                         # conjunctions of numeric ranges (nested, overlapping, touching) / swapped positional twins
-                        aq = range_compound(rng, numeric=True, ops=("and", "and", "or")) if rng.random() < 0.5 \
-                            else swapped_twins(rng)
+                        aq = rng.choice([lambda: range_compound(rng, numeric=True, ops=("and", "and", "or")),
+                                         lambda: swapped_twins(rng), lambda: swapped_twins(rng),
+                                         lambda: wide_ranges(rng)])()
                     if qi % 6 == 5:
                         aq = world.rand_span_query(rng, rng.randrange(1, 3))      # positional (span) queries
                     elif qi % 6 == 4:
